@@ -6,6 +6,8 @@ package vdb
 
 import (
 	"fmt"
+	"sort"
+	"strings"
 	"sync"
 
 	db "github.com/tendermint/tm-db"
@@ -127,7 +129,31 @@ func (d *DB) Name() string { return d.name }
 func (d *DB) Get(k []byte) ([]byte, error) { return d.mem.Get(k) }
 func (d *DB) Has(k []byte) (bool, error)   { return d.mem.Has(k) }
 
+// keyClass abbreviates a key: printable keys are kept (digits dropped), binary keys give their first byte.
+func keyClass(k []byte) string {
+	if len(k) == 0 {
+		return ""
+	}
+	for i := 0; i < len(k) && i < 12; i++ {
+		if k[i] < 0x20 || k[i] > 0x7e {
+			return fmt.Sprintf("%c*", k[0])
+		}
+	}
+	out := []byte{}
+	for i := 0; i < len(k) && i < 12; i++ {
+		if k[i] >= '0' && k[i] <= '9' {
+			continue
+		}
+		out = append(out, k[i])
+	}
+	return string(out)
+}
+
 func label(k []byte) string {
+	return keyClass(k)
+}
+
+func labelOld(k []byte) string {
 	n := len(k)
 	if n > 12 {
 		n = 12
@@ -200,10 +226,21 @@ func (b *batch) Write() error {
 			_ = b.d.mem.Set(o.k, o.v)
 		}
 	}
-	lab := ""
-	if len(b.ops) > 0 {
-		lab = label(b.ops[0].k)
+	// label = the set of key classes (first byte, or the printable prefix) touched by the batch
+	classes := map[string]bool{}
+	for _, o := range b.ops {
+		c := keyClass(o.k)
+		if o.del {
+			c = "-" + c
+		}
+		classes[c] = true
 	}
+	var cl []string
+	for c := range classes {
+		cl = append(cl, c)
+	}
+	sort.Strings(cl)
+	lab := strings.Join(cl, ",")
 	b.d.set.after(Mutation{DB: b.d.name, Kind: "batch", Label: lab, Keys: len(b.ops)})
 	b.ops = nil
 	return nil
